@@ -8,6 +8,10 @@ mod c02;
 mod c05;
 mod c06;
 mod c07;
+mod c08;
+mod c10;
+mod c16;
+mod fdgen;
 mod search;
 mod prog;
 mod tree;
@@ -43,6 +47,10 @@ fn main() {
                 "C05" => c05::run(seed, thorough, &mut out),
                 "C06" => c06::run(seed, thorough, &mut out),
                 "C07" => c07::run(seed, thorough, &mut out),
+                "C08" => c08::run(seed, thorough, &mut out),
+                "C10" => c10::run(seed, thorough, &mut out),
+                "C16" => c16::run(seed, thorough, 16, &mut out),
+                "C17" => c16::run(seed, thorough, 17, &mut out),
                 _ => {
                     eprintln!("unknown property {}", prop);
                     std::process::exit(2);
@@ -68,6 +76,10 @@ fn main() {
                     "C05" => c05::replay(line, &mut out),
                     "C06" => c06::replay(line, &mut out),
                     "C07" => c07::replay(line, &mut out),
+                    "C08" => c08::replay(line, &mut out),
+                    "C10" => c10::replay(line, &mut out),
+                    "C16" => c16::replay(line, 16, &mut out),
+                    "C17" => c16::replay(line, 17, &mut out),
                     _ => {
                         eprintln!("unknown property {}", prop);
                         std::process::exit(2);
